@@ -134,14 +134,58 @@ def Ev.isPoly : Ev α → Bool
 def initTable [Transc α] [FlatConst α] (tol : α) (evs : List (Ev α)) : List (Edge α) :=
   init1 zero 0 (evs.map (stepOf tol))
 
-/-- `length.rs: approximate_length` on a polyline path -/
-def approxLengthFrom [Transc α] : α → List (Ev α) → α
-  | l, [] => l
-  | l, .line f t _ _ :: r => approxLengthFrom (l + vlen (t - f)) r
-  | l, .end_ la fi _ _ true :: r => approxLengthFrom (l + vlen (fi - la)) r
-  | l, _ :: r => approxLengthFrom l r
+/-- `QuadraticBezierSegment::length` (closed form ported from kurbo, with the Legendre-Gauss
+branch for almost straight curves); `S::value(x)` literals are `f32` literals -/
+def quadLength [Transc α] [FlatConst α] (q : Quad α) : α :=
+  let d2 := q.a - q.c.smul two + q.b
+  let d1 := q.c - q.a
+  let a := d2.x * d2.x + d2.y * d2.y
+  let c := d1.x * d1.x + d1.y * d1.y
+  if a < FlatConst.value 1 4 * c then
+    vlen (q.a.smul (-(FlatConst.value 492943519233745 15)) + q.c.smul (FlatConst.value 430331482911935 15)
+          + q.b.smul (FlatConst.value 626120363218102 16))
+      + vlen ((q.b - q.a).smul (FlatConst.value 4444444444444444 16))
+      + vlen (q.a.smul (-(FlatConst.value 626120363218102 16))
+          + q.c.smul (-(FlatConst.value 430331482911935 15)) + q.b.smul (FlatConst.value 492943519233745 15))
+  else
+    let b := two * (d2.x * d1.x + d2.y * d1.y)
+    let sqrAbc := Transc.sqrt (a + b + c)
+    let a2 := Transc.pow a (-half)
+    let a32 := a2 * a2 * a2
+    let c2 := two * Transc.sqrt c
+    let baC2 := b * a2 + c2
+    let v0 := half * half * a2 * a2 * b * (two * sqrAbc - c2) + sqrAbc
+    if baC2 < FlatConst.epsilon then v0
+    else v0 + half * half * a32 * (four * c * a - b * b)
+           * Transc.ln (((two * a + b) * a2 + two * sqrAbc) / baC2)
 
-def approxLength [Transc α] (evs : List (Ev α)) : α := approxLengthFrom zero evs
+/-- `CubicBezierSegment::approximate_length(tolerance)`: the lengths of the approximating quadratics -/
+def cubicApproxLength [Transc α] [FlatConst α] (c : Cubic α) (tol : α) : α :=
+  (c.forEachQuadraticWithT tol).foldl (fun l q => l + quadLength q.1) zero
+
+/-- the loop of `length.rs: approximate_length` (`tol` already `tolerance.max(1e-4)`) -/
+def approxLengthFrom [Transc α] [FlatConst α] (tol : α) : α → List (Ev α) → α
+  | l, [] => l
+  | l, .line f t _ _ :: r => approxLengthFrom tol (l + vlen (t - f)) r
+  | l, .quad f c t _ _ :: r => approxLengthFrom tol (l + quadLength ⟨f, c, t⟩) r
+  | l, .cubic f c1 c2 t _ _ :: r => approxLengthFrom tol (l + cubicApproxLength ⟨f, c1, c2, t⟩ tol) r
+  | l, .end_ la fi _ _ true :: r => approxLengthFrom tol (l + vlen (fi - la)) r
+  | l, _ :: r => approxLengthFrom tol l r
+
+/-- `length.rs: approximate_length(path, tolerance)` -/
+def approxLength [Transc α] [FlatConst α] (tolerance : α) (evs : List (Ev α)) : α :=
+  approxLengthFrom (Scalar.max tolerance (ofSci 1 4)) zero evs
+
+/-- the path with every curve replaced by the lines of its flattening (what `initialize` measures) -/
+def flattenEvs [Transc α] [FlatConst α] (tol : α) : List (Ev α) → List (Ev α)
+  | [] => []
+  | .quad f c t af at_ :: r =>
+    ((Quad.forEachFlattenedWithT ⟨f, c, t⟩ tol).getD []).map (fun s => Ev.line s.a s.b af at_)
+      ++ flattenEvs tol r
+  | .cubic f c1 c2 t af at_ :: r =>
+    ((Cubic.forEachFlattenedWithT ⟨f, c1, c2, t⟩ tol).getD []).map (fun s => Ev.line s.a s.b af at_)
+      ++ flattenEvs tol r
+  | e :: r => e :: flattenEvs tol r
 
 /-! ## Cursor search (1-D) -/
 
